@@ -548,6 +548,52 @@ class SymVecEnum(GhostIterable):
             self.vec.proto.exit(interp, env)
 
 
+class GRange(GhostIterable):
+    """range(n) for a SYMBOLIC n: a loop over it is cut - one generic iteration on a generic index 0 <= i < n (a fresh symbolic integer), between the hooks of the invariant
+    protocol the contract queued for it (Interp.range_protocols, consumed in the order in which the symbolic ranges are created); an empty range (n <= 0) skips the body"""
+
+    _count = 0
+
+    def __init__(self, n, proto):
+        self.n, self.proto = n, proto
+        self.iterations = 0
+        self.managed = getattr(proto, "managed", ())
+        self.temps = getattr(proto, "temps", ())
+        GRange._count += 1
+        self.k = GRange._count
+
+    def nonempty(self):
+        return truth(self.n > 0)
+
+    def element(self):
+        c = current()
+        self.iterations += 1
+        name = getattr(self.proto, "index_name", None) or f"range_index_{self.k}"
+        i = c.integer(name)
+        c.assume(i >= 0)
+        c.assume(i < self.n)
+        self.index = i
+        if self.proto is not None:
+            self.proto.index = i
+        return i
+
+    def init(self, interp, env):
+        if self.proto is not None:
+            self.proto.init(interp, env)
+
+    def havoc(self, interp, env):
+        if self.proto is not None:
+            self.proto.havoc(interp, env)
+
+    def step(self, interp, env, broke):
+        if self.proto is not None:
+            self.proto.step(interp, env, broke)
+
+    def exit(self, interp, env):
+        if self.proto is not None:
+            self.proto.exit(interp, env)
+
+
 class IFunc:
     """a function object created by interpreting a `def` / `lambda` inside interpreted code"""
 
@@ -1232,7 +1278,7 @@ class Interp:
             #   one generic iteration of the real body;  step(env): the invariant is re-established;
             #   exit(env): arbitrary invariant state for the code after the loop
             _hook(itv.init, self, env)
-            if isinstance(itv, GSeq) and not itv.nonempty():
+            if hasattr(itv, "nonempty") and not itv.nonempty():
                 self.exec_block(s.orelse, env)      # empty sequence: the loop body does not run, the entry state is the exit state
                 return
             _hook(itv.havoc, self, env)
@@ -2074,6 +2120,18 @@ def _m_npconcat(interp, f, args, kw):
     if args and isinstance(args[0], (tuple, list)) and any(isinstance(p, SymVec) for p in args[0]):
         return SymVec.concatenate(args[0])
     return f(*args, **kw)
+
+
+@model(range, doc="range(n) with a symbolic n: loop cut on a generic index (GRange)")
+def _m_range(interp, f, args, kw):
+    if len(args) == 1 and isinstance(args[0], Poly) and not args[0].is_const():
+        protos = getattr(interp, "range_protocols", None)
+        if not protos:
+            raise Unsupported("range() of a symbolic value without a loop invariant queued by the contract")
+        return GRange(args[0], protos.pop(0))
+    if any(isinstance(a, Poly) and not a.is_const() for a in args):
+        raise Unsupported("range() with symbolic start / step")
+    return range(*[int(a.to_python()) if isinstance(a, Poly) else a for a in args])
 
 
 @model(abs, doc="abs(sym) = If(x>=0,x,-x)")
